@@ -19,8 +19,10 @@ use std::{
     time::Duration,
 };
 
+mod ext;
 mod gen;
 mod run;
+mod tasks;
 
 pub const ABORT_MARK: u64 = 999_999_998;
 pub const TIMEOUT_MARK: u64 = 999_999_997;
